@@ -12,7 +12,7 @@ CHECKS = {
     "C04": ("structural invariant monitor on parse_teal()/Function graphs + concrete pc traces replayed as walks",
             "exploration: static invariants against an independent successor relation on every generated layout, and interpreter traces checked step by step with an explicit call stack",
             "trusts vt/ref/cfg.py (successor relation from the AVM spec) and vt/ref/avm.py", "5/C04"),
-    "C05": ("reference call-structure comparison incl. call-graph.dot read back",
+    "C05": ("reference call-structure comparison incl. call-graph.dot read back (edges, nodes, outer shape of a digraph)",
             "exploration over layouts with 0-6 disjoint subroutines (nested, shared, recursive, dead call sites)",
             "trusts vt/ref/cfg.py; programs whose subroutine bodies overlap are skipped (property excludes them)", "5/C05"),
     "C06": ("concrete-execution soundness monitor on group_sizes/group_indices + abstract-walk exactness oracle (exact_valid <= reported <= exact_ci)",
@@ -24,8 +24,8 @@ CHECKS = {
     "C08": ("concrete-execution soundness monitor on address-field information",
             "exploration over address valuations {zero, literals, creator, attacker}",
             "trusts vt/ref/avm.py; addresses are atoms with equality only", "5/C08"),
-    "C09": ("concrete-execution soundness monitor on max_fee",
-            "exploration over fee representatives around every constant",
+    "C09": ("concrete-execution soundness monitor on max_fee + walk oracle for clause 2 + table of single direct checks (operator x operand order x negation x consumer x boundary constants) for the exact bound",
+            "exploration over fee representatives around every constant; the single-check table is sampled (400 of ~1 600 combinations per run)",
             "trusts vt/ref/avm.py", "5/C09"),
     "C02": ("push-down replay of every reported path against the reference graph + independent restatement of the nine exclusion predicates + rendering comparison",
             "exploration over generated programs (incl. recursion, shared subroutines) and the repository's .teal corpus",
@@ -42,7 +42,7 @@ CHECKS = {
     "C17": ("exit-status / exception monitor around tealer.__main__.main() (in-process) and `python -m tealer` (subprocess sample)",
             "exploration over fragment programs and adversarial layouts x 9 CLI modes",
             "programs outside the property's domain (subroutine body reachable without callsub) are skipped using vt/ref/cfg.py", "5/C17"),
-    "C18": ("read-back of every exported DOT / JSON artefact compared with the reference global graph and the in-process API results",
+    "C18": ("read-back of every exported DOT / JSON artefact (shape of a digraph, nodes, edges, colours, annotations) compared with the reference global graph and the in-process API results",
             "exploration over fragment programs x printers / output formats / filter patterns",
             "trusts the DOT reader in vt/checks/c18.py and vt/ref/cfg.py", "5/C18"),
     "C20": ("independent reachability + straight-line matcher on the reference instruction graph vs. match_regex",
@@ -57,12 +57,12 @@ CHECKS = {
     "C15": ("metamorphic monitor: original vs. rewritten source through the rewriter's instruction map",
             "exploration over fragment programs x compositions of the listed rewrites",
             "rewriters of vt/gen/rewrite.py, cross-checked per case with the reference interpreter", "5/C15"),
-    "C10": ("concrete multi-member-group soundness monitor on gtxn_context / absolute_context / relative_context",
+    "C10": ("concrete multi-member-group soundness monitor on gtxn_context / absolute_context / relative_context + attribution table (each named read form constrains exactly the targeted context; unrecognised index arithmetic constrains no offset context)",
             "exploration over programs reading other members by absolute index and by offset x groups with independent per-member valuations",
             "trusts vt/ref/avm.py; 'impossible index' taken from the block's own group_indices", "5/C10"),
-    "C13": ("concrete group-semantics oracle over generated YAML configurations vs. GroupTransactionOutput; degenerate configurations vs. single-contract verdicts",
+    "C13": ("concrete group-semantics oracle over generated YAML configurations vs. GroupTransactionOutput; cleared-by-the-statement oracle (guarded configurations and member-targeted abstract walks); listing-order invariance; degenerate configurations vs. single-contract verdicts; a rejected satisfiable configuration or a raising detector is a violation",
             "exploration over configurations of 1-3 transactions (absolute indices, offsets of both signs, types) x concrete groups",
-            "trusts vt/ref/avm.py; generated contracts avoid the constructs of the known findings; the precision direction is checked for one-transaction configurations only", "5/C13"),
+            "trusts vt/ref/avm.py and vt/ref/walks.py; generated contracts avoid the constructs of the known findings except the fee domain (attributed by the single-upper-bound oracle); configurations no group can satisfy are not judged", "5/C13"),
     "C03": ("abstract walk oracle (direct checks exact, all other conditions free, matched returns) vs. detector reports",
             "exploration over direct-check programs x nine detectors; confusion matrix oracle x tealer in the evidence",
             "trusts vt/ref/walks.py (symbolic per-block condition reconstruction, explicit-state search over (pc, call stack)); Fee judged on representatives", "5/C03"),
